@@ -81,13 +81,15 @@ structure REnv where
   msgJson : Path → Res J
 
 /-- `msg.Get(fd)` for a scalar-typed field: the populated value, or what an unset field reads as -/
+def defaultField : Card → Field
+  | .sing => .sing none
+  | .rep => .list []
+  | .map _ => .map []
+
 def fieldValue (m : RMsg) (p : Path) (c : Card) : Field :=
   match RMsg.get m p with
   | some (.leaf f) => f
-  | _ => match c with
-    | .sing => .sing none
-    | .rep => .list []
-    | .map _ => .map []
+  | _ => defaultField c
 
 /-- marshal options of `DefaultJSONMarshaler` (EmitDefaultValues) -/
 def rpOpts : Opts := { discard := true, enumNumbers := false, emitDefaults := true }
